@@ -5,6 +5,7 @@ import (
 	"fmt"
 	"os"
 	"os/exec"
+	"path/filepath"
 	"strings"
 )
 
@@ -82,14 +83,30 @@ func (c *Ctx) ChildCases(binary string) ([]Case, error) {
 		return nil, fmt.Errorf("%v: %s", err, errb.String())
 	}
 	var cases []Case
-	dec := json.NewDecoder(strings.NewReader(string(out)))
-	for dec.More() {
+	for _, line := range strings.Split(string(out), "\n") {
+		line = strings.TrimRight(line, "\r")
+		if line == "" {
+			continue
+		}
+		if line[0] != '{' {
+			// the child evaluated a predicate directly on the real code and reported a failure
+			if strings.HasPrefix(line, "VIOLATION") {
+				c.childViolations = append(c.childViolations, line)
+			} else if strings.HasPrefix(line, "  detail:") && len(c.childViolations) > 0 {
+				c.childViolations[len(c.childViolations)-1] += " |" + strings.TrimPrefix(line, "  detail:")
+			}
+			continue
+		}
 		var cs Case
-		if err := dec.Decode(&cs); err != nil {
+		if err := json.Unmarshal([]byte(line), &cs); err != nil {
 			return nil, err
 		}
 		cases = append(cases, cs)
 	}
+	for _, v := range c.childViolations {
+		c.Violation("child:"+filepath.Base(binary)+":"+firstWords(v), "reported by the "+filepath.Base(binary)+" build: "+v, map[string]string{"child_output": v})
+	}
+	c.childViolations = nil
 	return cases, nil
 }
 
@@ -99,4 +116,15 @@ func EmitCases(cases []Case) {
 	for _, cs := range cases {
 		enc.Encode(cs)
 	}
+}
+
+func firstWords(s string) string {
+	if i := strings.Index(s, "|"); i >= 0 {
+		s = s[i+1:]
+	}
+	s = strings.TrimSpace(s)
+	if len(s) > 60 {
+		s = s[:60]
+	}
+	return s
 }
